@@ -38,6 +38,10 @@ func (c *andCond) check() (err error) {
 }
 
 func (c *andCond) string() string {
+	if len(c.conditions) == 1 {
+		// a group of one is its only member
+		return c.conditions[0].string()
+	}
 	all := make([]string, 0, len(c.conditions))
 	for _, cond := range c.conditions {
 		all = append(all, cond.string())
